@@ -161,6 +161,21 @@ def check (spec0):
             r3 = report.parse (mm.sources_as_mininec ())
             if [int (x ['pulse']) for x in r3 ['sources_short']] != want:
                 bad ('cli-multi', 'listing-source', 'source listing names %s, expected %s' % ([x ['pulse'] for x in r3 ['sources_short']], want))
+            # each voltage acts on the pulse it was given for, in whatever order the sources are written: the same
+            # sources in ascending pulse order give the same currents
+            so = copy.deepcopy (spec)
+            so ['src'] = [dict (p = [a], v = s ['v']) for a, s in sorted (zip (want, srcs), key = lambda x: x [0])]
+            mo = gen.build (so)
+            try:
+                observe.solve (mm)
+                observe.solve (mo)
+                mon ['cli-multi.order'] = 1
+                d = np.abs (np.array (mm.current) - np.array (mo.current)).max () / max (np.abs (np.array (mo.current)).max (), 1e-300)
+                if np.isfinite (d) and d > 1e-9:
+                    bad ('cli-multi.order', 'source-order', 'sources %s with voltages %s: currents differ by %.3g from the same sources written in ascending pulse order' % ([x ['p'] for x in srcs], [x ['v'] for x in srcs], d))
+            except common.Repo_Crash as e:
+                if 'LinAlgError' not in e.key:
+                    raise
     # ---- loads: all four attachment forms
     t1, k1 = keys [int (pick [3] * len (keys)) % len (keys)]
     t2     = tags [int (pick [4] * len (tags)) % len (tags)]
@@ -230,6 +245,24 @@ def check (spec0):
         except common.Repo_Crash as e:
             if 'LinAlgError' not in e.key:
                 raise
+    # ---- a distributed load given for one object: every pulse that has a half on that object carries it exactly once
+    # (the pulses of its block and the junction pulses at its ends that belong to later objects)
+    for kind, opt in (('skin', dict (k = 'skin', cond = 5.8e7)), ('ins', dict (k = 'ins', radius = 3.0 * max (g ['r'] for g in spec ['geo']), eps = 2.5))):
+        sd = copy.deepcopy (spec)
+        sd ['src']   = [dict (p = [1], v = [1.0, 0.0])]
+        sd ['loads'] = [dict (opt, tag = t2)]
+        try:
+            md = gen.build (sd)
+        except common.Rejected:
+            continue
+        wantd = sorted (p.idx + 1 for p in md.pulses if any (s.geobj.tag == t2 for s in p.segs))
+        gotd  = sorted (p.idx + 1 for l in md.loads for p in l.pulses)
+        mon ['loads.distributed'] = mon.get ('loads.distributed', 0) + 1
+        if gotd != wantd:
+            bad ('loads.distributed', 'distributed-load-pulses', '%s load on object %d: attached to pulses %s, pulses with a half on that object %s' % (kind, t2, gotd, wantd))
+        r4 = report.parse (md.loads_as_mininec ())
+        if int (r4.get ('nloads', -1)) != len (wantd):
+            bad ('loads.distributed', 'listing-load', '%s load on object %d: NUMBER OF LOADS %s, %d pulses have a half on that object' % (kind, t2, r4.get ('nloads'), len (wantd)))
     if 'abs' in zdiag and 'obj' in zdiag:
         if not np.array_equal (zdiag ['abs'][0], zdiag ['obj'][0]) or zdiag ['abs'][1] != zdiag ['obj'][1]:
             bad ('loads', 'load-forms-differ', 'absolute and per-object attachment give different matrices')
